@@ -1,4 +1,5 @@
 import Dmn.Lemmas.RefParserRoundTrip
+import Dmn.Lemmas.RefParserInv
 
 /-!
 # C06 — a needed pair of parentheses cannot be dropped
@@ -17,6 +18,8 @@ def first : Tree → Option Tree
   | .path e _ => some e
   | .filter e _ => some e
   | .call f _ => some f
+  | .callNamed f _ _ _ => some f
+  | .inList e _ _ _ => some e
   | _ => none
 
 /-- `LeftDesc a b`: `a` lies on the left edge of `b` (possibly `a = b`). -/
@@ -140,17 +143,21 @@ theorem parseLoop_grows_strict {k : Nat} {fb : Option Nat} {lhs t' : Tree} {toks
 
 /-! ## The defining equations, read backwards -/
 
+/-- The operator round of the loop, read backwards: a binary node, or (after `in (`) the list form. -/
 theorem parseLoop_bin_inv {k : Nat} {fb : Option Nat} {lhs : Tree} {o : BinOp} {rest : List Tok}
     {res : Tree × List Tok} (hm : ¬ lvl o < k) (h : parseLoop k fb lhs (tokOf o :: rest) = some res) :
-    ¬ fb = some (lvl o) ∧ ∃ r rest', parseExpr (rhsMin o) rest = some (r, rest') ∧
-      parseLoop k (nextForbid o) (.bin o lhs r) rest' = some res := by
+    ¬ fb = some (lvl o) ∧
+    ((∃ r rest', parseExpr (rhsMin o) rest = some (r, rest') ∧
+        parseLoop k (nextForbid o) (.bin o lhs r) rest' = some res) ∨
+     (∃ a b more rest', parseLoop k (nextForbid o) (.inList lhs a b more) rest' = some res)) := by
   rw [parseLoop.eq_def] at h
   cases o <;> simp only [tokOf, opLevel, binOf, hm, if_false] at h <;>
     (repeat' (split at h)) <;>
     first
       | (exact absurd h (by simp))
       | (rename_i heq; simp at heq)
-      | exact ⟨by assumption, _, _, by assumption, h⟩
+      | exact ⟨by assumption, Or.inl ⟨_, _, by assumption, h⟩⟩
+      | exact ⟨by assumption, Or.inr ⟨_, _, _, _, h⟩⟩
 
 theorem parseExpr_neg_inv {k : Nat} {rest : List Tok} {res : Tree × List Tok}
     (h : parseExpr k (.minus :: rest) = some res) :
@@ -255,10 +262,34 @@ theorem parse_refused (m : Mode) : ∀ c : Tree, Refused m c
       (fun hn => by rw [needs_filterE] at hn; exact hn)
       (fun k => by simp only [startsOk, needs_filterE]) (parse_refused m e)
   | .call f as =>
-    refused_step m (.call f as) f .lparen parenLvl (needs m .callF f) (prArgs m as) rfl rfl
+    refused_step m (.call f as) f .lparen parenLvl (needs m .callF f) (prArgs m .rparen as) rfl rfl
       (fun rest => by simp only [pr, List.append_assoc, List.cons_append])
       (fun hn => by rw [needs_callF] at hn; exact hn)
       (fun k => by simp only [startsOk, needs_callF]) (parse_refused m f)
+  | .callNamed f n v bs =>
+    refused_step m (.callNamed f n v bs) f .lparen parenLvl (needs m .callF f)
+      (.name n :: .colon :: (par (wrapped m (needs m .delim v) v) (pr m v) ++ prBindsTail m .colon .rparen bs))
+      rfl rfl
+      (fun rest => by simp only [pr, List.append_assoc, List.cons_append])
+      (fun hn => by rw [needs_callF] at hn; exact hn)
+      (fun k => by simp only [startsOk, needs_callF]) (parse_refused m f)
+  | .inList e a b more =>
+    refused_step m (.inList e a b more) e .kin (lvl .in_) (needs m (.binL .in_) e)
+      (.lparen :: (par (wrapped m (needs m .delim a) a) (pr m a) ++
+        .comma :: (par (wrapped m (needs m .delim b) b) (pr m b) ++ prArgsTail m .rparen more)))
+      rfl (opLevel_tokOf .in_)
+      (fun rest => by simp only [pr, List.append_assoc, List.cons_append])
+      (fun hn => by rw [needs_binL] at hn; simp at hn; exact hn.1)
+      (fun k => by simp only [startsOk, needs_binL, tokOf]) (parse_refused m e)
+  | .ite _ _ _ => by intro k rest t' rest' hs; simp [startsOk] at hs
+  | .forS _ _ _ _ => by intro k rest t' rest' hs; simp [startsOk] at hs
+  | .forR _ _ _ _ _ => by intro k rest t' rest' hs; simp [startsOk] at hs
+  | .quant _ _ _ _ _ => by intro k rest t' rest' hs; simp [startsOk] at hs
+  | .fn _ _ => by intro k rest t' rest' hs; simp [startsOk] at hs
+  | .list _ => by intro k rest t' rest' hs; simp [startsOk] at hs
+  | .ctx _ => by intro k rest t' rest' hs; simp [startsOk] at hs
+  | .range _ _ _ _ => by intro k rest t' rest' hs; simp [startsOk] at hs
+  | .utest _ _ => by intro k rest t' rest' hs; simp [startsOk] at hs
 
 /-! ## A bare operand that takes the following operator into itself -/
 
@@ -267,6 +298,7 @@ returns (its own right edge has grown). -/
 def Absorbed (m : Mode) (c : Tree) : Prop :=
   ∀ (k : Nat) (T : Tok) (X : List Tok) (t' : Tree) (rest' : List Tok),
     absorbs m c T = true → startsOk m k c = true → (T = .dot → ∃ n X', X = .name n :: X') →
+    (∃ L, opLevel T = some L) →
     parseExpr k (pr m c ++ T :: X) = some (t', rest') → ¬ LeftDesc c t'
 
 /-- The last operand `r` of a node, read under the minimum `kr` in front of a token that the
@@ -275,7 +307,7 @@ theorem last_operand_differs (m : Mode) (r : Tree) (kr : Nat) (n : Bool) (T : To
     (r' : Tree) (Y' : List Tok)
     (hn : n = !startsOk m kr r)
     (habs : (levelGe T kr || (!wrapped m n r && absorbs m r T)) = true)
-    (hdot : T = .dot → ∃ n X', X = .name n :: X')
+    (hdot : T = .dot → ∃ n X', X = .name n :: X') (hL : ∃ L, opLevel T = some L)
     (ih : Absorbed m r)
     (h : parseExpr kr (par (wrapped m n r) (pr m r) ++ T :: X) = some (r', Y')) : r' ≠ r := by
   by_cases hi : wrapped m n r = false ∧ absorbs m r T = true
@@ -284,7 +316,7 @@ theorem last_operand_differs (m : Mode) (r : Tree) (kr : Nat) (n : Bool) (T : To
       have := wrapped_false hi.1
       rw [hn] at this
       simpa using this
-    have := ih kr T X r' Y' hi.2 hso hdot h
+    have := ih kr T X r' Y' hi.2 hso hdot hL h
     intro heq
     subst heq
     exact this (LeftDesc.refl _)
@@ -319,22 +351,191 @@ theorem parseQual_append (qs : List Nat) (Z : List Tok) :
     simp only [prQual, List.cons_append]
     rw [parseQual_dot_name, ih]
 
+theorem parseQual_length : ∀ X : List Tok, (parseQual X).2.length ≤ X.length
+  | [] => by simp [parseQual]
+  | [t] => by cases t <;> simp [parseQual]
+  | t :: u :: rest => by
+    by_cases h : t = .dot ∧ ∃ n, u = .name n
+    · obtain ⟨rfl, n, rfl⟩ := h
+      rw [parseQual_dot_name]
+      have := parseQual_length rest
+      simp only [List.length_cons]
+      omega
+    · unfold parseQual
+      split
+      · rename_i heq
+        injection heq with h1 h2
+        injection h2 with h2 h3
+        exact absurd ⟨h1, _, h2⟩ h
+      · simp
+
 theorem parse_absorbed (m : Mode) : ∀ c : Tree, Absorbed m c
   | .atom _ => by intro k T X t' rest' ha; simp [absorbs] at ha
   | .path _ _ => by intro k T X t' rest' ha; simp [absorbs] at ha
   | .filter _ _ => by intro k T X t' rest' ha; simp [absorbs] at ha
   | .call _ _ => by intro k T X t' rest' ha; simp [absorbs] at ha
+  | .callNamed _ _ _ _ => by intro k T X t' rest' ha; simp [absorbs] at ha
+  | .inList _ _ _ _ => by intro k T X t' rest' ha; simp [absorbs] at ha
+  | .list (.cons _ _) => by intro k T X t' rest' ha; simp [absorbs] at ha
+  | .ctx _ => by intro k T X t' rest' ha; simp [absorbs] at ha
+  | .range _ _ _ _ => by intro k T X t' rest' ha; simp [absorbs] at ha
+  | .list .nil => by
+    intro k T X t' rest' ha _ _ hL
+    obtain ⟨L, hL⟩ := hL
+    cases T <;> simp [absorbs, startsEnd, opLevel, binOf] at ha hL
+  | .utest c e => by
+    intro k T X t' rest' ha _ hdot _ h
+    have hT : T = .dot := by
+      simp [absorbs] at ha
+      exact ha.2
+    obtain ⟨n, X', hX⟩ := hdot hT
+    subst hT hX
+    cases e with
+    | num _ => simp [absorbs, endIsQn] at ha
+    | lit _ => simp [absorbs, endIsQn] at ha
+    | qn q qs =>
+      simp only [pr, prEnd, List.append_assoc, List.cons_append] at h
+      have hend : parseEnd (.name q :: (prQual qs ++ .dot :: .name n :: X')) =
+          some (.qn q (qs ++ n :: (parseQual X').1), (parseQual X').2) := by
+        simp only [parseEnd]
+        rw [parseQual_append, parseQual_dot_name]
+      have hlen : (parseQual X').2.length ≤ (Tok.name q :: (prQual qs ++ .dot :: .name n :: X')).length := by
+        have := parseQual_length X'
+        len_tac
+      rw [parseExpr_utest hend hlen] at h
+      have hg := parseLoop_grows' h
+      intro hld
+      have hlen2 : ∀ ys : List Nat, qs ≠ qs ++ n :: ys := by
+        intro ys hq
+        have := congrArg List.length hq
+        simp at this
+      rcases hld.comparable hg with hc | hc
+      · have := hc.of_no_first rfl
+        injection this with _ he
+        injection he with _ hqq
+        exact hlen2 _ hqq
+      · have := hc.of_no_first rfl
+        injection this with _ he
+        injection he with _ hqq
+        exact hlen2 _ hqq.symm
+  | .ite c a b => by
+    intro k T X t' rest' ha _ hdot hL h
+    simp only [pr, List.append_assoc, List.cons_append] at h
+    have hc := parse_delimited (parse_pr m c) (needs m .delim c) (t := .kthen) ⟨rfl, rfl⟩
+      (par (wrapped m (needs m .delim a) a) (pr m a) ++
+        (.kelse :: (par (wrapped m (needs m (.open iteMin) b) b) (pr m b) ++ T :: X)))
+    have ha' := parse_delimited (parse_pr m a) (needs m .delim a) (t := .kelse) ⟨rfl, rfl⟩
+      (par (wrapped m (needs m (.open iteMin) b) b) (pr m b) ++ T :: X)
+    obtain ⟨b', Y', hb, hloop⟩ := parseExpr_ite_inv hc ha' h
+    have hne := last_operand_differs m b iteMin (needs m (.open iteMin) b) T X b' Y' rfl
+      (by simpa only [absorbs, needs_open] using ha) hdot hL (parse_absorbed m b) hb
+    have hg := parseLoop_grows' hloop
+    intro hld
+    rcases hld.comparable hg with hc' | hc'
+    · have := hc'.of_no_first rfl
+      injection this with _ _ hbb
+      exact hne hbb.symm
+    · have := hc'.of_no_first rfl
+      injection this with _ _ hbb
+      exact hne hbb
+  | .forS v d its body => by
+    intro k T X t' rest' ha _ hdot hL h
+    simp only [pr, List.append_assoc, List.cons_append] at h
+    obtain ⟨t, ts, hts, hop, hne0, _⟩ := prItersTail_head m its
+      (par (wrapped m (needs m (.open forMin) body) body) (pr m body) ++ T :: X)
+    have hd := parse_delimited' (parse_pr m d) (needs m .delim d) hts hop
+    have hits := parseItersTail_pr m its
+      (par (wrapped m (needs m (.open forMin) body) body) (pr m body) ++ T :: X)
+    obtain ⟨b', Y', hb, hloop⟩ := parseExpr_forS_inv hd (not_ellipsis_of_head hts hne0) hits h
+    have hne := last_operand_differs m body forMin (needs m (.open forMin) body) T X b' Y' rfl
+      (by simpa only [absorbs, needs_open] using ha) hdot hL (parse_absorbed m body) hb
+    have hg := parseLoop_grows' hloop
+    intro hld
+    rcases hld.comparable hg with hc' | hc'
+    · have := hc'.of_no_first rfl
+      injection this with _ _ _ hbb
+      exact hne hbb.symm
+    · have := hc'.of_no_first rfl
+      injection this with _ _ _ hbb
+      exact hne hbb
+  | .forR v lo hi its body => by
+    intro k T X t' rest' ha _ hdot hL h
+    simp only [pr, List.append_assoc, List.cons_append] at h
+    have hlo := parse_delimited (parse_pr m lo) (needs m .delim lo) (t := .ellipsis) ⟨rfl, rfl⟩
+      (par (wrapped m (needs m .delim hi) hi) (pr m hi) ++ (prItersTail m its ++
+        (par (wrapped m (needs m (.open forMin) body) body) (pr m body) ++ T :: X)))
+    obtain ⟨t, ts, hts, hop, _, _⟩ := prItersTail_head m its
+      (par (wrapped m (needs m (.open forMin) body) body) (pr m body) ++ T :: X)
+    have hhi := parse_delimited' (parse_pr m hi) (needs m .delim hi) hts hop
+    have hits := parseItersTail_pr m its
+      (par (wrapped m (needs m (.open forMin) body) body) (pr m body) ++ T :: X)
+    obtain ⟨b', Y', hb, hloop⟩ := parseExpr_forR_inv hlo hhi hits h
+    have hne := last_operand_differs m body forMin (needs m (.open forMin) body) T X b' Y' rfl
+      (by simpa only [absorbs, needs_open] using ha) hdot hL (parse_absorbed m body) hb
+    have hg := parseLoop_grows' hloop
+    intro hld
+    rcases hld.comparable hg with hc' | hc'
+    · have := hc'.of_no_first rfl
+      injection this with _ _ _ _ hbb
+      exact hne hbb.symm
+    · have := hc'.of_no_first rfl
+      injection this with _ _ _ _ hbb
+      exact hne hbb
+  | .quant ev v d qs body => by
+    intro k T X t' rest' ha _ hdot hL h
+    simp only [pr, List.append_assoc, List.cons_append] at h
+    obtain ⟨t, ts, hts, hop, _, _⟩ := prBindsTail_head m (sep := .kin) (close := .ksatisfies) ⟨rfl, rfl⟩ (by simp) qs
+      (par (wrapped m (needs m (.open (quantMin ev)) body) body) (pr m body) ++ T :: X)
+    have hd := parse_delimited' (parse_pr m d) (needs m .delim d) hts hop
+    have hqs := parseBindsTail_pr m .kin .ksatisfies ⟨rfl, rfl⟩ (by simp) (by simp) qs
+      (par (wrapped m (needs m (.open (quantMin ev)) body) body) (pr m body) ++ T :: X)
+    obtain ⟨b', Y', hb, hloop⟩ := parseExpr_quant_inv ev hd hqs h
+    have hne := last_operand_differs m body (quantMin ev) (needs m (.open (quantMin ev)) body) T X b' Y' rfl
+      (by simpa only [absorbs, needs_open] using ha) hdot hL (parse_absorbed m body) hb
+    have hg := parseLoop_grows' hloop
+    intro hld
+    rcases hld.comparable hg with hc' | hc'
+    · have := hc'.of_no_first rfl
+      injection this with _ _ _ _ hbb
+      exact hne hbb.symm
+    · have := hc'.of_no_first rfl
+      injection this with _ _ _ _ hbb
+      exact hne hbb
+  | .fn ps body => by
+    intro k T X t' rest' ha _ hdot hL h
+    simp only [pr, List.append_assoc, List.cons_append] at h
+    obtain ⟨b', Y', hb, hloop⟩ := parseExpr_fn_inv (parseParams_pr ps _) h
+    have hne := last_operand_differs m body fnMin (needs m (.open fnMin) body) T X b' Y' rfl
+      (by simpa only [absorbs, needs_open] using ha) hdot hL (parse_absorbed m body) hb
+    have hg := parseLoop_grows' hloop
+    intro hld
+    rcases hld.comparable hg with hc' | hc'
+    · have := hc'.of_no_first rfl
+      injection this with _ hbb
+      exact hne hbb.symm
+    · have := hc'.of_no_first rfl
+      injection this with _ hbb
+      exact hne hbb
   | .bin o l r => by
-    intro k T X t' rest' ha hs hdot h
+    intro k T X t' rest' ha hs hdot hL h
     simp only [pr, List.append_assoc, List.cons_append] at h
     obtain ⟨hm, hlb⟩ := head_conditions m l k (lvl o) (tokOf o) (needs m (.binL o) l)
       (par (wrapped m (needs m (.binR o) r) r) (pr m r) ++ T :: X)
       (fun hn => by rw [needs_binL] at hn; simp at hn; exact hn.1)
       (by simpa only [startsOk, needs_binL] using hs)
     rw [parse_opd (parse_pr m l) _ k _ hlb] at h
-    obtain ⟨_, r', Y', hr, hloop⟩ := parseLoop_bin_inv hm h
+    obtain ⟨_, hbin | ⟨a', b', more', Y', hloop⟩⟩ := parseLoop_bin_inv hm h
+    case inr =>
+      have hg := parseLoop_grows' hloop
+      intro hld
+      rcases hld.comparable hg with hc | hc
+      · have := hc.same_first (l := l) rfl rfl
+        cases this
+      · have := hc.same_first (l := l) rfl rfl
+        cases this
+    obtain ⟨r', Y', hr, hloop⟩ := hbin
     have hne := last_operand_differs m r (rhsMin o) (needs m (.binR o) r) T X r' Y' rfl
-      (by simpa only [absorbs, needs_binR] using ha) hdot (parse_absorbed m r) hr
+      (by simpa only [absorbs, needs_binR] using ha) hdot hL (parse_absorbed m r) hr
     have hg := parseLoop_grows' hloop
     intro hld
     rcases hld.comparable hg with hc | hc
@@ -345,11 +546,11 @@ theorem parse_absorbed (m : Mode) : ∀ c : Tree, Absorbed m c
       injection this with _ _ hrr
       exact hne hrr
   | .neg e => by
-    intro k T X t' rest' ha _ hdot h
+    intro k T X t' rest' ha _ hdot hL h
     simp only [pr, List.cons_append] at h
     obtain ⟨e', Y', he, hloop⟩ := parseExpr_neg_inv h
     have hne := last_operand_differs m e negMin (needs m .negArg e) T X e' Y' rfl
-      (by simpa only [absorbs, needs_negArg] using ha) hdot (parse_absorbed m e) he
+      (by simpa only [absorbs, needs_negArg] using ha) hdot hL (parse_absorbed m e) he
     have hg := parseLoop_grows' hloop
     intro hld
     rcases hld.comparable hg with hc | hc
@@ -360,7 +561,7 @@ theorem parse_absorbed (m : Mode) : ∀ c : Tree, Absorbed m c
       injection this with hee
       exact hne hee
   | .between e lo hi => by
-    intro k T X t' rest' ha hs hdot h
+    intro k T X t' rest' ha hs hdot hL h
     simp only [pr, List.append_assoc, List.cons_append] at h
     obtain ⟨hm, heb⟩ := head_conditions m e k betweenLvl .between (needs m .betweenE e)
       (par (wrapped m (needs m .betweenLo lo) lo) (pr m lo) ++
@@ -369,7 +570,7 @@ theorem parse_absorbed (m : Mode) : ∀ c : Tree, Absorbed m c
       (by simpa only [startsOk, needs_betweenE] using hs)
     rw [parse_opd (parse_pr m e) _ k _ heb] at h
     obtain ⟨lo', rest1, hi', rest2, h1, h2, hloop⟩ := parseLoop_between_inv hm h
-    have hlo := parse_delimited (parse_pr m lo) (needs m .betweenLo lo) (t := .band) rfl
+    have hlo := parse_delimited (parse_pr m lo) (needs m .betweenLo lo) (t := .band) ⟨rfl, rfl⟩
       (par (wrapped m (needs m .betweenHi hi) hi) (pr m hi) ++ T :: X)
     rw [hlo] at h1
     injection h1 with h1
@@ -377,7 +578,7 @@ theorem parse_absorbed (m : Mode) : ∀ c : Tree, Absorbed m c
     injection hr1 with _ hr1
     subst hlo' hr1
     have hne := last_operand_differs m hi hiMin (needs m .betweenHi hi) T X hi' rest2 rfl
-      (by simpa only [absorbs, needs_betweenHi] using ha) hdot (parse_absorbed m hi) h2
+      (by simpa only [absorbs, needs_betweenHi] using ha) hdot hL (parse_absorbed m hi) h2
     have hg := parseLoop_grows' hloop
     intro hld
     rcases hld.comparable hg with hc | hc
@@ -388,7 +589,7 @@ theorem parse_absorbed (m : Mode) : ∀ c : Tree, Absorbed m c
       injection this with _ _ hhh
       exact hne hhh
   | .instOf e q qs => by
-    intro k T X t' rest' ha hs hdot h
+    intro k T X t' rest' ha hs hdot hL h
     have hT : T = .dot := by simpa [absorbs] using ha
     obtain ⟨n, X', hX⟩ := hdot hT
     subst hT hX
@@ -429,16 +630,16 @@ theorem tokOf_ne_dot (o : BinOp) : tokOf o ≠ .dot := by cases o <;> simp [tokO
 
 /-- The first operand, bare although it absorbs the token after it. -/
 theorem first_absorbed (m : Mode) (c e : Tree) (T : Tok) (X : List Tok) (hfirst : first c = some e)
-    (ha : absorbs m e T = true) (hdot : T = .dot → ∃ n X', X = .name n :: X') :
+    (ha : absorbs m e T = true) (hdot : T = .dot → ∃ n X', X = .name n :: X') (hL : ∃ L, opLevel T = some L) :
     parse (pr m e ++ T :: X) ≠ some c := by
   intro hp
-  exact parse_absorbed m e 0 T X c [] ha (startsOk_zero m e) hdot (parse_some hp) (LeftDesc.of_first hfirst)
+  exact parse_absorbed m e 0 T X c [] ha (startsOk_zero m e) hdot hL (parse_some hp) (LeftDesc.of_first hfirst)
 
 /-- The left operand of a binary operator without the pair it needs. -/
 theorem binL_needed (m : Mode) (o : BinOp) (l r : Tree) (w : Bool) (h : needs m (.binL o) l = true) :
     parse (pr m l ++ tokOf o :: par w (pr m r)) ≠ some (.bin o l r) := by
   cases ha : absorbs m l (tokOf o) with
-  | true => exact first_absorbed m _ l _ _ rfl ha (fun hd => absurd hd (tokOf_ne_dot o))
+  | true => exact first_absorbed m _ l _ _ rfl ha (fun hd => absurd hd (tokOf_ne_dot o)) ⟨_, opLevel_tokOf o⟩
   | false =>
     intro hp
     have hp := parse_some hp
@@ -461,7 +662,11 @@ theorem binR_needed (m : Mode) (o : BinOp) (l r : Tree) (h : needs m (.binR o) r
     simp at this
     exact ⟨startsOk_zero m l, this.1⟩
   rw [parse_opd (parse_pr m l) _ 0 _ hb] at hp
-  obtain ⟨_, r', Y', hr, hloop⟩ := parseLoop_bin_inv (Nat.not_lt_zero _) hp
+  obtain ⟨_, hbin | ⟨a', b', more', Y', hloop⟩⟩ := parseLoop_bin_inv (Nat.not_lt_zero _) hp
+  case inr =>
+    have := (parseLoop_grows' hloop).same_first (l := l) rfl rfl
+    cases this
+  obtain ⟨r', Y', hr, hloop⟩ := hbin
   rw [needs_binR] at h
   simp at h
   have hr' : parseExpr (rhsMin o) (pr m r ++ []) = some (r', Y') := by simpa using hr
@@ -502,7 +707,7 @@ theorem betweenHi_needed (m : Mode) (e lo hi : Tree) (h : needs m .betweenHi hi 
     exact ⟨startsOk_zero m e, this⟩
   rw [parse_opd (parse_pr m e) _ 0 _ hb] at hp
   obtain ⟨lo', rest1, hi', rest2, h1, h2, hloop⟩ := parseLoop_between_inv (Nat.not_lt_zero _) hp
-  have hlo := parse_delimited (parse_pr m lo) (needs m .betweenLo lo) (t := .band) rfl (pr m hi)
+  have hlo := parse_delimited (parse_pr m lo) (needs m .betweenLo lo) (t := .band) ⟨rfl, rfl⟩ (pr m hi)
   rw [hlo] at h1
   injection h1 with h1
   injection h1 with hlo' hr1
